@@ -180,7 +180,7 @@ def run(ch, idx, tier):
         if n_added:
             progset = at.ProgramSet.from_spreadsheet(progset.to_spreadsheet(), framework=fw, data=data)
             history.append(f"program book with {n_added} outcomes in untargeted populations")
-    if progset is not None and ch.flip("other_currency", 0.3):
+    if progset is not None and ch.flip("other_currency", 0.4):
         # a program book kept in another currency (the currency is whatever the spending units say)
         cur = ch.pick("currency", ["EUR", "AUD", "R", "£"])
         for prog in progset.programs.values():
@@ -231,7 +231,7 @@ def run(ch, idx, tier):
         nops = 0  # files written by old versions: only the binary persistence half of the property applies (their data predates today's books)
     OPS = ["none", "parset_copy", "add_pop", "remove_pop", "rename_pop", "add_transfer", "remove_transfer", "data_edit", "sample_zero", "load_calibration", "edit_yfactor", "connection_edit"]
     if progset is not None:
-        OPS += ["add_program", "remove_program", "remove_par", "remove_comp", "progset_edit", "progset_copy", "reconcile", "progset_sample_zero", "remove_program", "reconcile"]
+        OPS += ["add_program", "remove_program", "remove_par", "remove_comp", "progset_edit", "progset_copy", "reconcile", "progset_sample_zero", "remove_program", "reconcile", "add_program", "add_program"]
     new_names = 0
     aborted = False
     originals = []
@@ -411,7 +411,7 @@ def run(ch, idx, tier):
                     prog.target_comps = [tc[ch.choose("add_program.comp", len(tc))]]
                     other = list(progset.programs.values())[0]
                     spend, uc = 1000.0 * (1 + ch.choose("add_program.spend", 5)), 10.0 * (1 + ch.choose("add_program.uc", 5))
-                    if ch.flip("add_program.data_in_place", 0.5):
+                    if ch.flip("add_program.data_in_place", 0.7):
                         # values entered into the series the library created for the new program
                         prog.spend_data.insert(float(progset.tvec[0]), spend)
                         prog.unit_cost.insert(float(progset.tvec[0]), uc)
